@@ -44,6 +44,31 @@ pub fn diff_outcome(d: detdiff::Diff, ev: &mut crate::engine::Ev, prefix: &str) 
     }
 }
 
+/// The same differential oracle on this thread (which has decoded thousands
+/// of packets before) and on a fresh thread (which has decoded nothing): a
+/// decoder that keeps state per thread answers differently on one of them.
+///
+/// `stride`: the fresh thread is used for the cases whose content hash is a
+/// multiple of it (a thread start costs 10-50 times a decode).
+pub fn diff_both(f: fn(&[u8]) -> detdiff::Diff, bytes: &[u8], stride: u64, ev: &mut crate::engine::Ev, prefix: &str) -> Result<&'static str, crate::engine::Fail> {
+    let here = f(bytes);
+    if crate::engine::fingerprint(&bytes) % stride.max(1) != 0 {
+        return diff_outcome(here, ev, prefix);
+    }
+    ev.label("also decoded as the first packet of a fresh thread");
+    let fresh = std::thread::scope(|s| s.spawn(|| f(bytes)).join());
+    let fresh = match fresh {
+        Ok(d) => d,
+        Err(payload) => std::panic::resume_unwind(payload),
+    };
+    if here.is_ok() {
+        if let Err((sig, msg)) = fresh {
+            return Err(crate::engine::Fail::new(sig, format!("as the first packet decoded on a fresh thread: {msg}")));
+        }
+    }
+    diff_outcome(here, ev, prefix)
+}
+
 /// Deterministic 64-bit mixer for enumerations that need varied contents
 /// (a pure function of its arguments; no hidden RNG state).
 pub fn mix(a: u64, b: u64) -> u64 {
